@@ -543,6 +543,10 @@ func (d *detAnalyzer) totalOrder(sp *sortSpec) (bool, string) {
 	elemKeys := []string{"·"}
 	if st, ok := sp.slice.Type().Underlying().(*types.Slice); ok {
 		ordered := func(t types.Type) bool {
+			if tp, isParam := t.(*types.TypeParam); isParam {
+				// a type parameter: every type of its constraint's type set is ordered (cmp.Ordered, ~string, …)
+				return orderedTypeSetX10(tp.Constraint(), 0)
+			}
 			b, ok := t.Underlying().(*types.Basic)
 			return ok && b.Info()&types.IsOrdered != 0
 		}
